@@ -9,6 +9,8 @@ package httpserver
 
 import (
 	"fmt"
+	"net"
+	"os"
 	"reflect"
 	"sort"
 	"strconv"
@@ -1138,3 +1140,25 @@ MIGHAgEAMBMGByqGSM49AgEGCCqGSM49AwEHBG0wawIBAQQgZb/egymXJxkIIeaC
 rRNbBj0UNQzz+FIJHNf2GLomu6TQb9fefrle1ymjhYvTHei2K9c1VqYz
 -----END PRIVATE KEY-----
 `
+
+// vfPickPort returns a TCP port this process can listen on right now. Ports are taken from a
+// private window below the kernel's ephemeral range (32768..), spread by pid, and probed with a
+// real Listen: the checks open and close thousands of sockets, and asking the kernel for port 0
+// fails once the machine-wide ephemeral range is crowded with TIME_WAIT entries.
+var vfPortCounter int
+
+func vfPickPort() int {
+	const lo, span = 15000, 17000
+	base := (os.Getpid()*131 + 7) % span
+	for i := 0; i < 400; i++ {
+		vfPortCounter++
+		p := lo + (base+vfPortCounter*3)%span
+		l, err := net.Listen("tcp", fmt.Sprintf(":%d", p))
+		if err != nil {
+			continue
+		}
+		l.Close()
+		return p
+	}
+	return 0
+}
